@@ -82,7 +82,8 @@ vars  == <<funcs, phase, cfg, keys, outs, cur, max, nil, sl, mine, req, todo, at
 
 NoReq == [st |-> "none", n |-> <<Obj, "val">>, p |-> NanPt, k |-> 0]
 NoCfg == [kind |-> "opt", N |-> 1, reset |-> TRUE, grad |-> FALSE, useDb |-> TRUE, storeJac |-> TRUE,
-          stopIfNan |-> TRUE, maxTime |-> FALSE, kkt |-> FALSE, nx |-> 2, x0 |-> NanPt, samples |-> <<>>]
+          stopIfNan |-> TRUE, maxTime |-> FALSE, kkt |-> FALSE, nx |-> 2, x0 |-> NanPt, samples |-> <<>>,
+          composite |-> FALSE]
 
 IsEmpty(p)  == p \notin DOMAIN outs \/ outs[p] = {}
 NonEmpty    == {p \in DOMAIN outs : outs[p] # {}}
@@ -247,11 +248,19 @@ AlgoReturn ==
   /\ Stop("Normal")
   /\ UNCHANGED <<funcs, cfg, dbv, ctr, lst, at, doev, resv, nexec, histv, origPts, raised>>
 
-(* --- _get_result / _get_early_stopping_result: built from the recorded history --- *)
+(* --- a composite algorithm (multi-start, augmented Lagrangian) runs sub-drivers which convert the
+       termination exception of a request into a sub-result: the algorithm goes on --- *)
+Resume ==
+  /\ phase = "terminated" /\ cfg.kind = "opt" /\ cfg.composite /\ stop # "Normal"
+  /\ phase' = "running" /\ stop' = "none"
+  /\ UNCHANGED <<funcs, cfg, dbv, ctr, lst, req, todo, at, doev, resv, nexec, histv, origPts, raised>>
+
+(* --- _get_result / _get_early_stopping_result: when gemseo stopped the run the result is built from
+       the recorded history; an algorithm that returns by itself may report its own point --- *)
 Recorded == {p \in DOMAIN outs : <<Obj, "val">> \in outs[p]}
 BuildResult(x) ==
   /\ phase = "terminated"
-  /\ x \in (IF Recorded = {} THEN {NanPt} ELSE Recorded)
+  /\ stop # "Normal" => x \in (IF Recorded = {} THEN {NanPt} ELSE Recorded)
   /\ hasResult' = TRUE /\ xopt' = x
   /\ phase' = "built"
   /\ UNCHANGED <<funcs, cfg, dbv, ctr, lst, req, todo, at, doev, stop, nexec, histv, origPts, raised>>
@@ -268,16 +277,17 @@ PostRun ==
   /\ UNCHANGED <<funcs, cfg, dbv, ctr, lst, req, todo, at, doev, stop, resv, histv, origPts, raised>>
 
 (* ------------------------------------------------------------------ configurations explored *)
-CONSTANTS MaxN, NXs, UseDbs, StoreJacs, WithNanPt
+CONSTANTS MaxN, NXs, UseDbs, StoreJacs, WithNanPt, Composites
 PtsN == IF WithNanPt THEN Points \cup {NanPt} ELSE Points
 SeqsOf(S, n) == [1..n -> S]
 ModelCfgs ==
   { [kind |-> "opt", N |-> n, reset |-> r, grad |-> g, useDb |-> u, storeJac |-> sj, stopIfNan |-> TRUE,
-     maxTime |-> TRUE, kkt |-> g, nx |-> nx, x0 |-> x, samples |-> <<>>] :
-       n \in 1..MaxN, r \in BOOLEAN, g \in BOOLEAN, u \in UseDbs, sj \in StoreJacs, nx \in NXs, x \in Points }
+     maxTime |-> TRUE, kkt |-> g, nx |-> nx, x0 |-> x, samples |-> <<>>, composite |-> cp] :
+       n \in 1..MaxN, r \in BOOLEAN, g \in BOOLEAN, u \in UseDbs, sj \in StoreJacs, nx \in NXs, x \in Points,
+       cp \in Composites }
   \cup
   { [kind |-> "doe", N |-> Len(s), reset |-> r, grad |-> g, useDb |-> u, storeJac |-> sj, stopIfNan |-> FALSE,
-     maxTime |-> TRUE, kkt |-> FALSE, nx |-> nx, x0 |-> NanPt, samples |-> s] :
+     maxTime |-> TRUE, kkt |-> FALSE, nx |-> nx, x0 |-> NanPt, samples |-> s, composite |-> FALSE] :
        s \in UNION {SeqsOf(PtsN, n) : n \in 1..MaxN}, r \in BOOLEAN, g \in BOOLEAN, u \in UseDbs,
        sj \in StoreJacs, nx \in NXs }
 
@@ -290,7 +300,7 @@ Next ==
   \/ \E o \in {"ok", "nan", "raise"} : OrigCall(o)
   \/ Store \/ KktPass \/ KktStop
   \/ \E s \in Causes \cup {"none"} : NewIter(s)
-  \/ NextSample \/ AlgoReturn
+  \/ NextSample \/ AlgoReturn \/ Resume
   \/ \E x \in PtsN : BuildResult(x)
   \/ ClearListeners \/ PostRun
 Spec == Init /\ [][Next]_vars
@@ -305,11 +315,14 @@ TypeOK ==
 
 Running == phase \notin {"idle"}
 
-(* at most N new non-empty entries; the originals are entered at no more than N new points *)
+(* at most N new non-empty entries; the originals are entered at no more than N new points.
+   Composite algorithms: a sub-driver that swallows a NaN stop has entered the original at a point
+   that is not recorded; the number of such points is bounded by the sub-level budgets, which this
+   (main-level) model does not have: they are held to the entries clause. *)
 Budget ==
   (Running /\ cfg.useDb) =>
      /\ Cardinality(NewFilled) <= max
-     /\ Cardinality(origPts \ filled0) <= max
+     /\ ~cfg.composite => Cardinality(origPts \ filled0) <= max
 
 (* sharper, derived: what is left of the budget when the counter is not reset; the counter counts
    exactly the new iterations (the request in flight is counted when the driver's listener has run) *)
@@ -327,7 +340,7 @@ CounterFinal ==
 
 (* the run ends with a result built from the recorded history, whatever stopped it *)
 AlwaysResult ==
-  /\ phase = "postrun" => (hasResult /\ (xopt # NanPt => xopt \in Range(keys)))
+  /\ phase = "postrun" => (hasResult /\ ((stop # "Normal" /\ xopt # NanPt) => xopt \in Range(keys)))
   /\ phase = "crashed" => raised # {}       \* only an exception of a user function escapes an optimizer
 
 (* the driver's listeners are gone after the run: the next run counts once per iteration *)
